@@ -204,33 +204,48 @@ pub fn minimise(input: &[u8], mut bad: impl FnMut(&[u8]) -> bool, budget: usize,
             }
         }
     }
-    // 3. smallest window values (binary search, keeps only verified candidates); not field-monotone
-    // (a window may straddle a field boundary), hence skipped in truncate_only mode
+    // 3a. the shortest violating prefix ends right after the field that drives the violation:
+    // minimise the windows that end at the end of the prefix first (binary search, only verified
+    // candidates are kept)
+    let mut search = |cur: &mut Vec<u8>, off: usize, w: usize, calls: &mut usize, bad: &mut dyn FnMut(&[u8]) -> bool| {
+        let hi0 = read_be(cur, off, w);
+        if hi0 == 0 {
+            return;
+        }
+        let (mut lo, mut hi) = (0u64, hi0); // invariant: hi is known bad
+        while lo < hi {
+            let mid = lo + (hi - lo) / 2;
+            let mut c = cur.clone();
+            write_be(&mut c, off, w, mid);
+            *calls += 1;
+            if bad(&c) {
+                hi = mid;
+            } else {
+                lo = mid + 1;
+            }
+        }
+        write_be(cur, off, w, hi);
+    };
+    if !truncate_only {
+        for w in [4usize, 2, 1, 8, 4, 2, 1] {
+            if cur.len() >= w && calls + 70 < budget {
+                let off = cur.len() - w;
+                search(&mut cur, off, w, &mut calls, &mut bad);
+            }
+        }
+    }
+    // 3b. smallest window values everywhere; not field-monotone (a window may straddle a field
+    // boundary), hence skipped in truncate_only mode
     for w in if truncate_only { vec![] } else { vec![8usize, 4, 2] } {
         let mut off = 0;
         while off + w <= cur.len() && calls + 70 < budget {
-            let hi0 = read_be(&cur, off, w);
-            if hi0 != 0 {
-                let (mut lo, mut hi) = (0u64, hi0); // invariant: hi is known bad
-                while lo < hi {
-                    let mid = lo + (hi - lo) / 2;
-                    let mut c = cur.clone();
-                    write_be(&mut c, off, w, mid);
-                    calls += 1;
-                    if bad(&c) {
-                        hi = mid;
-                    } else {
-                        lo = mid + 1;
-                    }
-                }
-                write_be(&mut cur, off, w, hi);
-            }
+            search(&mut cur, off, w, &mut calls, &mut bad);
             off += 1;
         }
     }
     // 4. smallest byte values, left to right (lowering a length byte can shift the rest of the
     // parse, so this is skipped in truncate_only mode)
-    for i in 0..(if truncate_only { 0 } else { cur.len() }) {
+    'bytes: for i in 0..(if truncate_only { 0 } else { cur.len() }) {
         let orig = cur[i];
         if orig == 0 {
             continue;
@@ -238,7 +253,8 @@ pub fn minimise(input: &[u8], mut bad: impl FnMut(&[u8]) -> bool, budget: usize,
         let cands: Vec<u8> = if full_scan { (0..orig).collect() } else { [0u8, 1, 2, 0x10, 0x7f, 0x80].iter().copied().filter(|c| *c < orig).collect() };
         for c in cands {
             if calls >= budget {
-                return cur;
+                cur[i] = orig;
+                break 'bytes;
             }
             cur[i] = c;
             calls += 1;
@@ -248,11 +264,8 @@ pub fn minimise(input: &[u8], mut bad: impl FnMut(&[u8]) -> bool, budget: usize,
             cur[i] = orig;
         }
     }
-    // 5. shortest prefix again (values changed)
+    // 5. shortest prefix again (values changed); always affordable: at most len more calls
     for l in 0..cur.len() {
-        if calls >= budget {
-            break;
-        }
         calls += 1;
         if bad(&cur[..l]) {
             cur.truncate(l);
